@@ -43,18 +43,20 @@ def allZero (l : List Byte) : Bool := l.all (· == 0#8)
     operation must still be followed by the chip-select release (C20).  A chip-select
     operation that FAILED leaves the line where it was: after a failed release the window is
     still open and after a failed assert none was opened, so nothing may follow in that call
-    (bytes clocked later would extend the old window / go out with chip-select high). -/
+    (bytes clocked later would extend the old window / go out with chip-select high).
+    The VALUE of the dummy byte of a read, and of the bytes clocked out during its data phase,
+    is not constrained (the property does not, and the chip ignores them). -/
 def decodeSpi : List JEntry → Option (List Acc)
   | [] => some []
   | ⟨.delay ms, _⟩ :: r => (decodeSpi r).map (Acc.delay ms :: ·)
   | ⟨.csLow, false⟩ :: r => if r.isEmpty then some [Acc.lowFailed] else none
   | ⟨.csLow, true⟩ :: ⟨.spiWrite [a, v], ok⟩ :: ⟨.csHigh, okh⟩ :: r =>
       if (a &&& 0x80#8) == 0#8 && (okh || r.isEmpty) then (decodeSpi r).map (Acc.wr a.toNat v (ok && okh) :: ·) else none
-  | ⟨.csLow, true⟩ :: ⟨.spiTransfer [a, d], false⟩ :: ⟨.csHigh, okh⟩ :: r =>
-      if (a &&& 0x80#8) != 0#8 && d == 0#8 && (okh || r.isEmpty) then
+  | ⟨.csLow, true⟩ :: ⟨.spiTransfer [a, _], false⟩ :: ⟨.csHigh, okh⟩ :: r =>
+      if (a &&& 0x80#8) != 0#8 && (okh || r.isEmpty) then
         (decodeSpi r).map (Acc.rd (a &&& 0x7F#8).toNat 0 false :: ·) else none
-  | ⟨.csLow, true⟩ :: ⟨.spiTransfer [a, d], true⟩ :: ⟨.spiTransfer buf, ok⟩ :: ⟨.csHigh, okh⟩ :: r =>
-      if (a &&& 0x80#8) != 0#8 && d == 0#8 && (okh || r.isEmpty) then
+  | ⟨.csLow, true⟩ :: ⟨.spiTransfer [a, _], true⟩ :: ⟨.spiTransfer buf, ok⟩ :: ⟨.csHigh, okh⟩ :: r =>
+      if (a &&& 0x80#8) != 0#8 && (okh || r.isEmpty) then
         (decodeSpi r).map (Acc.rd (a &&& 0x7F#8).toNat buf.length (ok && okh) :: ·) else none
   | _ => none
 
